@@ -16,6 +16,7 @@ Section SfGeneric.
   Hypothesis le_trans : forall a b c, le a b -> le b c -> le a c.
   Hypothesis min1_le_one : forall a b,
     le (n_zero N) a -> le (n_zero N) b -> le b (n_one N) -> le (n_min1 N (n_add N a b)) (n_one N).
+  Hypothesis min1_range : forall p, le (n_zero N) p -> le (n_zero N) (n_min1 N p) /\ le (n_min1 N p) (n_one N).
   Hypothesis step_mono : forall a b,
     le (n_zero N) a -> le (n_zero N) b -> le b (n_one N) -> le b (n_min1 N (n_add N a b)).
 
@@ -54,24 +55,25 @@ Section SfGeneric.
   Qed.
 
   Theorem survival_monotone_range : forall pdf sf mn mx,
-    Forall (le (n_zero N)) pdf -> le (last pdf (n_zero N)) (n_one N) ->
+    Forall (le (n_zero N)) pdf ->
     survival N pdf = Ok (sf, mn, mx) ->
     length sf = length pdf /\ noninc sf /\ Forall in01 sf.
   Proof.
-    intros pdf sf mn mx Hpos Hlast Hs. unfold survival in Hs.
+    intros pdf sf mn mx Hpos Hs. unfold survival in Hs.
     destruct (rev pdf) as [|lst revrest] eqn:E; [discriminate|].
     destruct revrest as [|y r]; [discriminate|].
-    assert (sf_loop N (Z.of_nat (length pdf) - 2) (y :: r) lst [lst] 0 0 = (sf, mn, mx)) as Hrun by congruence.
+    assert (sf_loop N (Z.of_nat (length pdf) - 2) (y :: r) (n_min1 N lst) [n_min1 N lst] 0 0 = (sf, mn, mx)) as Hrun by congruence.
     clear Hs.
     destruct (rev_cons_last pdf lst (y :: r) (n_zero N) E) as [Hl Hpdf].
     assert (Forall (le (n_zero N)) (lst :: y :: r)) as Hall.
     { rewrite <- E. apply Forall_rev. exact Hpos. }
     inversion Hall as [|? ? Hlst Hrest]; subst x l.
+    destruct (min1_range lst Hlst) as [Hm0 Hm1].
     apply sf_loop_inv in Hrun; auto.
     - destruct Hrun as (Hlen & Hn & Hf). split; [|split]; auto.
       rewrite Hlen. rewrite Hpdf. rewrite app_length, rev_length. cbn. lia.
     - cbn. exact I.
-    - constructor; [|constructor]. split; [exact Hlst|]. rewrite <- Hl. exact Hlast.
+    - constructor; [|constructor]. split; assumption.
   Qed.
 
   (* adjacent order gives the order of any two entries *)
@@ -101,34 +103,40 @@ Section SfGeneric.
   (* ----- p-values are non-increasing in the scaled score ----- *)
 
   Definition pv_idx (d : dist T) (r : Z) : T :=
-    if r <? d_min d then n_one N
+    if r <? d_min d then nth 0 (d_sf d) (n_zero N)
     else if Z.of_nat (length (d_sf d)) <=? as_usize r then n_zero N
     else nth (Z.to_nat r) (d_sf d) (n_zero N).
 
-  Lemma d_pvalue_idx : forall d s,
+  Lemma d_pvalue_idx : forall d s, d_sf d <> [] ->
     d_pvalue N d s = (r <- d_scale N d s ;; Ok (pv_idx d r)).
   Proof.
-    intros d s. unfold d_pvalue, pv_idx. destruct (d_scale N d s) as [r| | |]; cbn; auto.
-    destruct (r <? d_min d); auto. destruct (Z.of_nat (length (d_sf d)) <=? as_usize r); auto.
+    intros d s Hne. unfold d_pvalue, pv_idx. destruct (d_scale N d s) as [r| | |]; cbn; auto.
+    destruct (d_sf d) as [|x l] eqn:E; [contradiction|].
+    destruct (r <? d_min d); auto. destruct (Z.of_nat (length (x :: l)) <=? as_usize r); auto.
   Qed.
 
   Lemma pv_idx_mono : forall d r1 r2,
     (forall x, le (n_zero N) x -> le x x) ->
-    le (n_zero N) (n_zero N) -> le (n_zero N) (n_one N) -> le (n_one N) (n_one N) ->
-    noninc (d_sf d) -> Forall in01 (d_sf d) -> 0 <= d_min d ->
+    le (n_zero N) (n_zero N) ->
+    noninc (d_sf d) -> Forall in01 (d_sf d) -> d_sf d <> [] -> 0 <= d_min d ->
     r1 <= r2 -> le (pv_idx d r2) (pv_idx d r1).
   Proof.
-    intros d r1 r2 Hrefl H00 H01 H11 Hn Hf Hmin Hr.
+    intros d r1 r2 Hrefl H00 Hn Hf Hne Hmin Hr.
     assert (forall r, 0 <= r -> as_usize r = r) as Hus.
     { intros r Hr0. unfold as_usize. destruct (r <? 0) eqn:E; [apply Z.ltb_lt in E; lia|reflexivity]. }
     assert (forall i, (i < length (d_sf d))%nat -> in01 (nth i (d_sf d) (n_zero N))) as Hin.
     { intros i Hi. rewrite Forall_forall in Hf. apply Hf, nth_In, Hi. }
-    assert (forall r, le (pv_idx d r) (n_one N)) as Hle1.
-    { intros r. unfold pv_idx. destruct (r <? d_min d) eqn:E1; auto.
-      apply Z.ltb_ge in E1. rewrite (Hus r) by lia.
-      destruct (Z.of_nat (length (d_sf d)) <=? r) eqn:E2; auto.
-      apply Z.leb_gt in E2. apply Hin. lia. }
-    unfold pv_idx at 2. destruct (r1 <? d_min d) eqn:E1; [apply Hle1|].
+    assert (0 < length (d_sf d))%nat as Hlen0.
+    { destruct (d_sf d); [contradiction|cbn; lia]. }
+    (* every value is at most the first entry *)
+    assert (forall r, le (pv_idx d r) (nth 0 (d_sf d) (n_zero N))) as Hle0.
+    { intros r. unfold pv_idx. destruct (r <? d_min d) eqn:E1.
+      - apply Hrefl. apply (Hin 0%nat Hlen0).
+      - apply Z.ltb_ge in E1. rewrite (Hus r) by lia.
+        destruct (Z.of_nat (length (d_sf d)) <=? r) eqn:E2.
+        + apply (Hin 0%nat Hlen0).
+        + apply Z.leb_gt in E2. apply noninc_nth; auto. lia. }
+    unfold pv_idx at 2. destruct (r1 <? d_min d) eqn:E1; [apply Hle0|].
     apply Z.ltb_ge in E1. rewrite (Hus r1) by lia.
     unfold pv_idx. destruct (r2 <? d_min d) eqn:E3; [apply Z.ltb_lt in E3; lia|].
     rewrite (Hus r2) by lia.
@@ -214,6 +222,11 @@ Proof.
   intros p H. unfold Qmin1. destruct (Qcompare_spec 1 p) as [E|E|E]; lra.
 Qed.
 
+Lemma Qmin1_range : forall p, 0 <= p -> 0 <= Qmin1 p /\ Qmin1 p <= 1.
+Proof.
+  intros p H. unfold Qmin1. destruct (Qcompare_spec 1 p) as [E|E|E]; split; lra.
+Qed.
+
 (* ----- stage A over Q ----- *)
 
 Lemma min_by_Q : forall l acc r,
@@ -259,16 +272,17 @@ Qed.
 
 (* what stage A guarantees in exact arithmetic *)
 Definition stage_a_spec (m : list (list (cell Q))) (offset scale : Q) : Prop :=
-  (exists z, offset = inject_Z z) /\ (exists z, scale = inject_Z z) /\ 0 <= scale /\
+  (exists z, offset = inject_Z z) /\ 0 < scale /\
   forall x, In x (finite_cells QOps m) -> offset <= x /\ (x - offset) * scale <= 1000.
 
 Definition q_small (small0 large : Q) : Q := if eqb_n QOps small0 large then large - 1 else small0.
+Definition q_scale (quot : Q) : Q := if eqb_n QOps (inject_Z (Qfloor quot)) 0 then quot else inject_Z (Qfloor quot).
 
 Lemma stage_a_Q_eq : forall m,
   stage_a QOps m =
   (small0 <- small_of QOps m ;; large <- large_of QOps m ;;
    Ok (inject_Z (Qfloor (q_small small0 large)),
-       inject_Z (Qfloor (inject_Z 1000 / (large - inject_Z (Qfloor (q_small small0 large))))))).
+       q_scale (inject_Z 1000 / (large - inject_Z (Qfloor (q_small small0 large)))))).
 Proof. reflexivity. Qed.
 
 Lemma stage_a_Q : forall m offset scale,
@@ -281,7 +295,7 @@ Proof.
   apply min_by_Q in Hmin. destruct Hmin as (Hm1 & Hm2 & Hm3).
   apply max_by_Q in Hmax. destruct Hmax as (HM1 & HM2 & HM3).
   assert (offset = inject_Z (Qfloor (q_small small0 large)) /\
-          scale = inject_Z (Qfloor (inject_Z 1000 / (large - inject_Z (Qfloor (q_small small0 large))))))
+          scale = q_scale (inject_Z 1000 / (large - inject_Z (Qfloor (q_small small0 large)))))
     as [Hoff Hsc] by (split; congruence).
   clear H. set (small := q_small small0 large) in *.
   assert (small <= small0 /\ small < large) as [Hs1 Hs2].
@@ -289,16 +303,19 @@ Proof.
   destruct (Qfloor_bounds small) as [Hf1 Hf2].
   set (off := inject_Z (Qfloor small)) in *. subst offset scale.
   assert (0 < large - off) as Hpos by lra.
-  destruct (Qfloor_bounds (inject_Z 1000 / (large - off))) as [Hg1 Hg2].
-  assert (0 <= inject_Z 1000 / (large - off)) as Hq.
-  { apply Qle_shift_div_l; [exact Hpos|]. rewrite Qmult_0_l. vm_compute. intros C; discriminate C. }
-  split; [eexists; reflexivity|]. split; [eexists; reflexivity|].
-  split; [apply inject_Z_nonneg, Qfloor_nonneg; exact Hq|].
+  set (quot := inject_Z 1000 / (large - off)) in *.
+  destruct (Qfloor_bounds quot) as [Hg1 Hg2].
+  assert (0 < quot) as Hq.
+  { unfold quot. apply Qlt_shift_div_l; [exact Hpos|]. rewrite Qmult_0_l. reflexivity. }
+  assert (0 <= inject_Z (Qfloor quot)) as Hfl by (apply inject_Z_nonneg, Qfloor_nonneg; lra).
+  assert (0 < q_scale quot /\ q_scale quot <= quot) as [Hsc0 Hsc1].
+  { unfold q_scale, eqb_n. cbn [n_cmp QOps].
+    destruct (Qcompare_spec (inject_Z (Qfloor quot)) 0) as [E|E|E]; split; lra. }
+  split; [eexists; reflexivity|]. split; [exact Hsc0|].
   intros x H. rewrite Ecells in H.
   assert (small0 <= x /\ x <= large) as [Hx1 Hx2].
   { destruct H as [Hx|Hx]; [subst; split; lra|]. rewrite Forall_forall in Hm2, HM2. split; auto. }
   split; [lra|].
   apply (Qmult_le_1000 _ (large - off)); try lra.
-  - apply inject_Z_nonneg, Qfloor_nonneg. exact Hq.
-  - exact Hg1.
+  exact Hsc1.
 Qed.
